@@ -489,7 +489,7 @@ def sh1(model):
                        witness='--as-server with a request in another language than --language')
         if params:
             r.instances += 1
-    want = {'defs': 'define', 'pack': 'packages', 'dcls': 'documentclass'}
+    want = {'defs': 'define', 'pack': 'packages', 'dcls': 'documentclass', 'ienc': 'encoding'}
     for m in model.mods.values():
         if not m.short.startswith('shell'):
             continue
@@ -510,7 +510,8 @@ def sh1(model):
                 miss = [k for k, opt in want.items() if not (k in kw and carries(kw[k], opt))]
                 if miss:
                     r.fail(n, 'this tex2txt.Options(...) does not pass %s of the command line: macros '
-                           'and packages declared there are unknown in this mode'
+                           'and packages declared there are unknown in this mode (ienc: files read by \\LTinput '
+                           'are decoded as UTF-8 instead of --encoding)'
                            % ', '.join('%s=cmdline.%s' % (k, want[k]) for k in miss),
                            witness='--list-unknown together with --define')
                 else:
